@@ -67,7 +67,10 @@ def run(ctx):
                 if not (min(st_, en_) <= v <= max(st_, en_)) or v not in iv and not (absolute is False and s > e):
                     bad = "contained"
                     break
-                if k and not ((v > vals[k - 1]) if fwd else (v < vals[k - 1])):
+                # monotone in the order of the instants (two values of one tzinfo object compare by wall clock under CPython's
+                # same-tzinfo rule - C11-same-tz-order - which inside a repeated hour is not the order of the instants)
+                pos = (lambda x: (x.int_timestamp, x.microsecond)) if hasattr(v, "utcoffset") and v.utcoffset() is not None else (lambda x: x)
+                if k and not ((pos(v) > pos(vals[k - 1])) if fwd else (pos(v) < pos(vals[k - 1]))):
                     bad = "strictly_monotone"
                     break
             if bad is None and vals:
